@@ -436,6 +436,8 @@ def abs_for_kind(kind, value):
     re-packed into that container)."""
     if kind == "klist" and isinstance(value, (list, tuple)):
         return ["KeyedList", [_abs(e) for e in value]]
+    if kind in ("list_leaf", "list_kitem") and isinstance(value, tuple):
+        return _abs(list(value))
     if kind == "kset" and isinstance(value, (list, tuple, set, frozenset)):
         items = list(value)
         return ["KeyedSet", sorted(([_abs(getattr(e, "k", None) if not isinstance(e, dict) else e.get("k")), _abs(e)]
